@@ -1,6 +1,9 @@
+//go:debug randseednop=0
+
 package c15
 
 import (
+	"math/rand"
 	"encoding/json"
 	"fmt"
 
@@ -33,6 +36,9 @@ var kinds = []struct {
 }
 
 func runCase(t *testing.T, c *Case, src, sched *choice.Source, out *wproto.Out, id int) {
+	// the global math/rand source is part of the simulation: k-means initialisation of
+	// the quantized exporters draws from it
+	rand.Seed(20260929)
 	out.Begin(id)
 	st := &Stats{}
 	var fs []Finding
